@@ -187,6 +187,15 @@ check('C18',
       'Capture through the real ScriptSnapshot/LightSet/lifx_lan_light over simulated devices.',
       'DESIGN.md C18')
 
+check('C20',
+      'explicit-state BFS over request histories against the real front_end/WebApp/JobControl (Flask API stub), for every manifest of a bounded menu',
+      'For every manifest of <=2 (thorough 3) distinct entries over a 14-entry menu (hostile strings, path separators, background flags, duplicate files) a BFS over request histories '
+      'of <=4 (thorough 5) events (GET listed/unlisted path, /stop/<p>, /stop-current, /stop-all, /status, /capture, /, /off, completion of a running job) with canonical state (queue, '
+      'active, background, live threads): only manifest-listed files are ever opened and a request opens exactly its entry, unlisted paths start nothing, a running script is not '
+      'restarted, stops reach exactly the named/current/all jobs and stop-all empties the queue, status/capture render, every string reaching a template is html-escaped, default path/title.',
+      'Flask/Jinja2 absent: mc/flaskstub.py (Blueprint, request, mini template interpreter over the real template files); job threads are fake threads completed by explorer events.',
+      'DESIGN.md C20')
+
 NOT_YET = 'check not built yet in this session (design in DESIGN.md); will be claimed when its command exists'
 
 
